@@ -134,6 +134,8 @@ class World:
                 for a in g2.attackers:
                     self.atts.append(a)
                 self.graph = g2
+            elif k == 'reorder':
+                self.graph.nodes = [self.nodes[i] for i in op[1]]
             elif k == 'q_trav':
                 ret = bool(query.is_node_traversable_by_attacker(self.nodes[op[2]], self.atts[op[1]]))
             elif k == 'q_surface':
@@ -247,6 +249,7 @@ def c_op(op) -> str:
     if k == 'set_tags': return f'OSetTags {op[1]} {C.clist([C.cstr(t) for t in op[2]])}'
     if k == 'set_extras': return f'OSetExtras {op[1]} {C.cjv(op[2])}'
     if k == 'copy': return 'OCopy'
+    if k == 'reorder': return f'OReorder {nl(op[1])}'
     if k == 'q_trav': return f'OQTrav {op[1]} {op[2]}'
     if k == 'q_surface': return f'OQSurface {op[1]}'
     if k == 'q_update': return f'OQUpdate {op[1]} {nl(op[2])} {nl(op[3])}'
@@ -410,6 +413,10 @@ class Gen:
         elif k == 'copy':
             if self.closed():
                 self.do(('copy',))
+        elif k == 'reorder' and ing:
+            l = list(ing)
+            rng.shuffle(l)
+            self.do(('reorder', l))
         elif k == 'q_trav' and ats and ing:
             self.do(('q_trav', rng.choice(ats), rng.choice(ing)))
         elif k == 'q_surface' and ats:
